@@ -238,14 +238,15 @@ def require_design_ok(res, what):
 # Go harness
 
 def overlay_for(sc, pkgs, mutant_overlay=None):
-    """Build an -overlay json that maps /verif/harness/<name>/*.go into the /repo package dir.
-    pkgs: dict harness-subdir -> repo-relative package dir."""
+    """Build an -overlay json that maps /verif/harness/<name>/*.go into a /repo package dir.
+    pkgs: dict harness-subdir -> repo-relative package dir (several subdirs may map to the same
+    package: a shared helper dir plus the property's own dir)."""
     repl = {}
     for h, pkgdir in pkgs.items():
         hd = os.path.join(HARNESS, h)
         for f in sorted(os.listdir(hd)):
             if f.endswith(".go"):
-                repl[os.path.join(REPO, pkgdir, "zz_verif_" + f)] = os.path.join(hd, f)
+                repl[os.path.join(REPO, pkgdir, "zz_verif_%s_%s" % (h, f))] = os.path.join(hd, f)
     if mutant_overlay:
         repl.update(mutant_overlay)
     p = sc.path("overlay-%s.json" % hashlib.sha1(json.dumps(sorted(repl.items())).encode()).hexdigest()[:8])
@@ -415,9 +416,13 @@ def validate_traces(sc, module, cfg, traces, batch=2000, timeout=900, deque=Fals
 # known findings
 
 def load_known():
-    p = os.path.join(ROOT, "known_findings.jsonl")
     known, fixed = [], []
-    if os.path.exists(p):
+    paths = [os.path.join(ROOT, "known_findings.jsonl")]
+    if os.environ.get("VERIF_KNOWN"):      # development only: extra proposed entries
+        paths.append(os.environ["VERIF_KNOWN"])
+    for p in paths:
+        if not os.path.exists(p):
+            continue
         for ln in open(p):
             ln = ln.strip()
             if not ln or ln.startswith("#"):
